@@ -569,6 +569,43 @@ def correspond(ctx, scale):
                 failures.append({'key': f'{bname}:large-call:outputs', 'what': f'{bname}: outputs of a large call differ from the chunked calls at tokens with equal indices', 'case': dict(name=bname, tokens=ntok)})
         except Exception as ex:
             failures.append({'key': f'{bname}:large-call:exception:{type(ex).__name__}', 'what': f'{bname}: {ex!r}', 'case': dict(name=bname)})
+    # COMMON-OFFSET batches with near-tied codes (round 10, seed C10-j): tokens around 4e3 .. 6e4 whose codes lie 0.5 apart - below the float32 resolution
+    # of |x|^2, so the winner is decided by rounding.  Whatever that rounding gives, it is a function of the token and the codebook: the same token
+    # alone, in a batch of its neighbours, in halves of that batch and next to an outlier gets the same index and vector (a per-call centring /
+    # rescaling "for numerical stability" changes the winners with the company).  Every other coordinate is exactly zero, so the sums are order-free.
+    from vector_quantize_pytorch import VectorQuantize as _VQ, ResidualVQ as _RVQ
+    for oi, offset in enumerate([4096.0, 4096.0, 30000.0, 60000.0, -4096.0, 1024.0]):
+        d = [1, 2, 1, 3, 2, 1][oi]
+        K = 4
+        for kind in ('vq', 'rvq'):
+            try:
+                torch.manual_seed(880 + oi)
+                mod = _VQ(dim=d, codebook_size=K) if kind == 'vq' else _RVQ(dim=d, num_quantizers=2, codebook_size=K)
+                cbk = torch.zeros(K, d)
+                cbk[:, 0] = offset + 0.5 * torch.arange(K)
+                (mod if kind == 'vq' else mod.layers[0]).codebook = cbk
+                mod.eval()
+                nt_ = 8
+                xs = torch.zeros(1, nt_, d)
+                xs[0, :, 0] = offset + torch.tensor([0.02, 0.5, 1.01, 1.5, 0.6, 1.6, 0.9, -0.1])
+                with torch.no_grad():
+                    o_b, i_b = mod(xs)[:2]
+                    variants_ = [('alone', [(t_, xs[:, t_:t_ + 1]) for t_ in range(nt_)]), ('halves', [(0, xs[:, :4]), (4, xs[:, 4:])]),
+                                 ('next-to-an-outlier', [(0, torch.cat([xs, torch.full((1, 1, d), -7.0 * offset)], dim=1))]),
+                                 ('next-to-zeros', [(0, torch.cat([xs, torch.zeros(1, 3, d)], dim=1))])]
+                    for vname, parts in variants_:
+                        for start, xpart in parts:
+                            o_p, i_p = mod(xpart)[:2]
+                            ln = min(xpart.shape[1], nt_ - start)
+                            ev += 1
+                            dist['common_offset_near_tie_calls'] = dist.get('common_offset_near_tie_calls', 0) + 1
+                            if not torch.equal(i_p[:, :ln], i_b[:, start:start + ln]) or not torch.equal(o_p[:, :ln], o_b[:, start:start + ln]):
+                                failures.append({'key': f'{kind}:common-offset-near-ties:{vname}', 'what': f'{kind} dim={d}, codes {offset} + 0.5k, tokens near them: tokens {start}..{start + ln - 1} get indices '
+                                                 f'{i_p[:, :ln].reshape(-1).tolist()} {vname} but {i_b[:, start:start + ln].reshape(-1).tolist()} inside the batch of eight (the result depends on the other tokens of the call)',
+                                                 'case': dict(kind=kind, offset=offset, dim=d, variant=vname)})
+                                break
+            except Exception as ex:
+                failures.append({'key': f'{kind}:common-offset-near-ties:exception:{type(ex).__name__}', 'what': repr(ex)[:200], 'case': dict(kind=kind, offset=offset)})
     bad, broken = core.run_cases(ctx, 'c10', HEADER, cases, per_file=30)
     for name, out in broken:
         failures.append({'key': f'coq-eval:{name}', 'what': 'case file did not evaluate: ' + out, 'case': {'file': name}})
